@@ -191,6 +191,8 @@ def nud__let_expression(self: XPathToken) -> XPathToken:
     while True:
         self.parser.next_token.expected('$')
         variable = self.parser.expression(5)
+        if variable.symbol != '$':
+            raise variable.wrong_syntax()  # "$" VarName required
         self.append(variable)
         self.parser.advance(':=')
         expr = self.parser.expression(5)
